@@ -113,6 +113,17 @@ Theorem C19_monitor_least_free : forall l n, least_free l n -> least_free_b l n 
 Proof. exact least_free_b_complete. Qed.
 Print Assumptions C19_monitor_least_free.
 
+(* ... and, for the two allocation clauses, nothing else: a line the monitor accepts IS the least free
+   line number of that configuration, a service it accepts IS an idlest working one *)
+Theorem C19_monitor_least_free_exact : forall l n, least_free_b l n = true <-> least_free l n.
+Proof. exact least_free_b_exact. Qed.
+Print Assumptions C19_monitor_least_free_exact.
+
+Theorem C19_monitor_idlest_exact : forall s svc,
+  sorted (services s) -> (idlest_b s svc = true <-> idlest s svc).
+Proof. exact idlest_b_exact. Qed.
+Print Assumptions C19_monitor_idlest_exact.
+
 (* END TO END: every implementation trace that the model accepts ([agree]: same dump after every
    operation, result among the model's admissible results) passes the monitor - for ALL
    histories; the guard is the one the monitor itself evaluates (a step is checked iff the
